@@ -697,7 +697,11 @@ any receiver slice value with nil.
 func (r Stack) Replace(x any, idx int) (ok bool) {
 	if r.IsInit() && x != nil {
 		if !r.getState(ronly) {
+			// lock here, not in replace(): reveal() calls
+			// replace() while already holding the lock.
+			r.stack.lock()
 			ok = r.stack.replace(x, idx)
+			r.stack.unlock()
 		}
 	}
 
